@@ -26,6 +26,7 @@
 #include <string.h>
 
 #include "nlopt-internal.h"
+#include "nlopt-verif.h"
 
 /*********************************************************************/
 
@@ -115,6 +116,7 @@ static double f_bound(int n, const double *x, void *data_)
 
     x_tr = (double *) malloc(n * sizeof(double));
     memcpy(x_tr, x, n * sizeof(double));
+    NLOPT_VERIF_SITE(101, n, x);
     x_bound(n, x_tr, data->lb, data->ub);
     f = data->f((unsigned) n, x_tr, NULL, data->f_data);
     free(x_tr);
@@ -251,6 +253,7 @@ static double elimdim_func(unsigned n0, const double *x0, double *grad, void *d_
     unsigned n = d->n, i, j;
 
     (void) n0;                  /* unused */
+    NLOPT_VERIF_EVENT(20, d, x0, 0.0, (int) n0 * 2 + (grad != NULL));
     for (i = j = 0; i < n; ++i) {
         if (lb[i] == ub[i])
             x[i] = lb[i];
@@ -264,6 +267,7 @@ static double elimdim_func(unsigned n0, const double *x0, double *grad, void *d_
             if (lb[i] != ub[i])
                 grad[j++] = d->grad[i];
     }
+    NLOPT_VERIF_EVENT(21, d, grad, val, (int) n0);
     return val;
 }
 
@@ -276,6 +280,7 @@ static void elimdim_mfunc(unsigned m, double *result, unsigned n0, const double 
 
     (void) n0;                  /* unused */
     (void) grad;                /* assert: grad == NULL */
+    NLOPT_VERIF_EVENT(22, d, x0, 0.0, (int) n0 * 2 + (grad != NULL));
     for (i = j = 0; i < n; ++i) {
         if (lb[i] == ub[i])
             x[i] = lb[i];
@@ -464,6 +469,7 @@ static double memoize_func(unsigned n, const double *x, double *grad, void *d_)
     double val;
     unsigned i, feasible = 1;
 
+    NLOPT_VERIF_EVENT(30, d, x, 0.0, (int) n * 2 + (grad != NULL));
     val = d->f(n, x, grad, d->f_data);
 
     for (i = 0; i < n; ++ i)
@@ -478,6 +484,7 @@ static double memoize_func(unsigned n, const double *x, double *grad, void *d_)
         d->minf = val;
         memcpy(d->bestx, x, n * sizeof(double));
     }
+    NLOPT_VERIF_EVENT(31, d, d->bestx, d->minf, (int) n);
     return val;
 }
 
@@ -523,6 +530,7 @@ static nlopt_result nlopt_optimize_(nlopt_opt opt, double *x, double *minf)
 
     if (!opt || !x || !minf || !opt->f || opt->maximize)
         RETURN_ERR(NLOPT_INVALID_ARGS, opt, "NULL args to nlopt_optimize_");
+    NLOPT_VERIF_EVENT(10, opt, x, 0.0, 0);
 
     /* copy a few params to local vars for convenience */
     n = opt->n;
@@ -967,6 +975,8 @@ static double f_max(unsigned n, const double *x, double *grad, void *data)
         for (i = 0; i < n; ++i)
             grad[i] = -grad[i];
     }
+    NLOPT_VERIF_EVENT(40, d, x, 0.0, (int) n * 2 + (grad != NULL));
+    NLOPT_VERIF_EVENT(41, d, grad, -val, (int) n);
     return -val;
 }
 
@@ -992,6 +1002,7 @@ nlopt_result NLOPT_STDCALL nlopt_optimize(nlopt_opt opt, double *x, double *opt_
     nlopt_unset_errmsg(opt);
     if (!opt || !opt_f || !opt->f)
         RETURN_ERR(NLOPT_INVALID_ARGS, opt, "NULL args to nlopt_optimize");
+    NLOPT_VERIF_EVENT(1, opt, x, 0.0, 0);
     f = opt->f;
     f_data = opt->f_data;
     pre = opt->pre;
@@ -1040,6 +1051,7 @@ nlopt_result NLOPT_STDCALL nlopt_optimize(nlopt_opt opt, double *x, double *opt_
         }
 
         ret = nlopt_optimize_(elim_opt, x, opt_f);
+        NLOPT_VERIF_EVENT(11, elim_opt, x, *opt_f, (int) ret);
 
         if (elim_opt != opt) {
             opt->numevals = elim_opt->numevals;
@@ -1070,6 +1082,7 @@ nlopt_result NLOPT_STDCALL nlopt_optimize(nlopt_opt opt, double *x, double *opt_
         *opt_f = -*opt_f;
     }
 
+    NLOPT_VERIF_EVENT(2, opt, x, *opt_f, (int) ret);
     return ret;
 }
 
